@@ -128,10 +128,12 @@ def run(check):
         check.violation("parser::parse differs from the model: %s" % l1.first_diff(mans[diffs[0]], rans[diffs[0]]),
                         case={"source": c["text"], "request": c["r"]}, impl=rans[diffs[0]], model=mans[diffs[0]],
                         failing_input=False, broken="correspondence L1 parser::parse (theorems TsV.C03.*)")
-    # known finding: the substring pre-filter
+    # repaired defect (substring pre-filter), replayed: a regression is a violation
     w = runner([{"op": "parse", "src": "# [typeshare]\npub struct S { pub a: u8 }\n", "crate": "", "file_name": "o", "path": "w.rs"}])[0]
     if w.get("ok") is None and "err" not in w:
-        check.known("prefilter-spelling", {"source": "# [typeshare]\\npub struct S { pub a: u8 }"})
+        if not check.known("prefilter-spelling", {"source": "# [typeshare]\\npub struct S { pub a: u8 }"}):
+            check.violation("a file whose annotations are spelled `# [typeshare]` is skipped: its annotated struct is silently omitted",
+                            case={"source": "# [typeshare]\npub struct S { pub a: u8 }\n"}, impl=w, failing_input=True)
     cli_part(check, cases)
     check.assumptions += ["the emission clause (each back end prints every parsed item and member once) rests on the byte-exact back-end correspondence of C01/C02/C09 and the model's structure (a map over the parsed lists)"]
 
